@@ -567,6 +567,7 @@ pub fn check_tracker_filter(h: &crate::gen::scenes::History) -> CaseResult {
 }
 
 pub fn run(env: &Env, rep: &Report) {
+    stall_watchdog(400);
     rep.set_rule("measurement sequences up to 300 steps (constant, linear, accelerating, jittering, growing, shrinking, rotating; coordinates reflected into 1..1e4; 1-3 predicts per step, ~8% updates skipped), weights 0.005..0.5 / 0.0005..0.05, envelope classes regular (height within x30 of the initial) and extreme (x1000); stationary objects; 1..4 independent points for the point / vector filters; distances on and around every chi-square table entry. Non-trivial: >=20 steps with non-zero innovation; for costs a d between the 2-dof and the 5-dof gate; distinct = distinct serialized case");
     rep.assume("reference: dense f64 textbook filter (oracle/kalman.rs) with the library's documented noise model; tolerances: position 5e-3 h + 4 ulp, height 2e-3 h, aspect 1e-4, angle 1e-3, covariance 2% of sqrt(P_ii P_jj), distance 1e-3 relative against the filter's own state");
     let w = workers();
